@@ -952,6 +952,32 @@ def r17_pairing(idx, r):
     pairing_rule(idx, r, ["armi.bookkeeping.db", "armi.utils.flags", "armi.reactor.flags", "armi.reactor.parameters"], 60)
 
 
+def r19_auto_bits_and_selection(idx, r):
+    """(a) toWriteToDB (shared rule of C04).  (b) automatic flag bits never collide with explicit ones: wherever an auto value is looked for,
+    the search LOOPS (`while value in taken: value *= 2`) - a single `if` skips one taken bit and lands on the next taken one; and
+    Flag.extend registers all explicit values before it resolves any auto (one _resolveAutos call, after the registering loop)."""
+    from .c04 import to_write_rule
+    to_write_rule(idx, r)
+    n = 0
+    for f in idx.module("armi.utils.flags").all_funcs():
+        for x in walk_local(f.node):
+            if isinstance(x, (ast.If, ast.While)) and isinstance(x.test, ast.Compare) and isinstance(x.test.ops[0], ast.In) and any(isinstance(y, ast.AugAssign) and isinstance(y.op, ast.Mult) and norm(y.target) == norm(x.test.left) for y in x.body):
+                n += 1
+                r.require(isinstance(x, ast.While), f"{f.qualname}:auto-bit-search-loops", f, node=x,
+                          msg=f"`{norm(x.test)}` is tested once: with explicit values on two consecutive bits the automatic value moves from one taken bit onto the next taken one, and two flags share a bit")
+    if n < 2:
+        raise AnchorMissing("auto-bit searches in armi/utils/flags.py")
+    e = idx.method("armi.utils.flags.Flag", "extend")
+    res = [c for c in iter_calls(e.node) if call_attr(c) == "_resolveAutos"]
+    loops = [x for x in e.node.body if isinstance(x, ast.For)]
+    if len(res) != 1:
+        raise AnchorMissing("Flag.extend: _resolveAutos")
+    in_loop = any(any(y is res[0] for y in ast.walk(lp)) for lp in walk_local(e.node) if isinstance(lp, ast.For))
+    first_explicit = next((lp for lp in loops if "int" in norm(lp.iter) and any(call_attr(c) == "_registerField" for c in iter_calls(lp))), None)
+    r.require(not in_loop and first_explicit is not None and first_explicit.lineno < res[0].lineno, "Flag.extend:explicit-values-registered-before-autos-resolved", e, node=res[0],
+              msg="autos are resolved before (or while) the explicit values of the same call are registered: an auto listed first takes the bit an explicit entry then claims")
+
+
 def run(idx, chk):
     chk.explanation = (
         "C05: pack/unpack are sibling implementations; their attrs key sets, strategy decision trees, None-sentinel tables, "
@@ -995,3 +1021,5 @@ def run(idx, chk):
                  necessary="packing and unpacking receive the attributes and shapes that belong to the value")
     chk.run_rule("R05.18", "every parameter of a database function is used; the reader assigns the stored value, None included (R04.5)", lambda r: r18_every_field_every_value(idx, r), floor=60,
                  necessary="every value reads back with the kind and shape it was written with, None where None was written")
+    chk.run_rule("R05.19", "toWriteToDB selects by overlap (evaluated); auto flag bits are searched in a loop and after the explicit values are registered", lambda r: r19_auto_bits_and_selection(idx, r), floor=4,
+                 necessary="every assigned value is in the file; flag names keep their meaning across the round trip")
